@@ -103,6 +103,9 @@ class Facets:
     min_length: Optional[int] = None
     max_length: Optional[int] = None
     enumeration: Optional[list] = None
+    # facets the generator has no counterpart for (pattern, whiteSpace, totalDigits, fractionDigits): (facet name, text) pairs that
+    # are rendered as written; value sampling ignores them
+    unchecked: Optional[list] = None
 
     def items(self):
         out = []
